@@ -145,7 +145,16 @@ def gen(kind, n, seed):
     if kind == "record":
         rec = core.prng_bytes(1024, seed + 2)
         return (rec * (n // 1024 + 1))[:n]
+    if kind == "dictlike":
+        for dct in (universe.DELTA_DICT, universe.DELTA_DICT * 3):
+            c = dictlike(dct)
+            if len(c) == n:
+                return c
     raise ValueError(kind)
+
+
+def dictlike(dct):
+    return (dct[7:] + dct[:31] + b"|" + dct) * 12
 
 
 def segmentation(n, kind):
@@ -235,6 +244,13 @@ def medium_items(ctx):
                     for cname, cline in (("none manual", "cfg comp=0 manual=1"), ("zstd manual", "cfg comp=2 manual=1"),
                                          ("none manual max=5000", "cfg comp=0 manual=1 max=5000")):
                         items.append(("%s/%d %s seg=%dx%d" % (kind, n, cname, k, m), cline, content, ",".join(ops), "32768"))
+    # contents made of the dictionary's own bytes (raw-content dictionary, no dictionary id in the frames): the compressed chunks
+    # are back-references into the dictionary, so a reader that does not load it - or loads another one - cannot decode them
+    for dname, dct in (("delta", universe.DELTA_DICT), ("delta-x3", universe.DELTA_DICT * 3)):
+        content = dictlike(dct)
+        for lvl in (1, 19):
+            items.append(("dictlike/%d zstd+dict(%s) level=%d seg=3-chunks" % (len(content), dname, lvl),
+                          "cfg comp=2 manual=1 level=%d dict=%s" % (lvl, dct.hex()), content, "w%d,e,w%d,e,W" % (len(content) // 3, len(content) // 3), "32768;7"))
     # a configured minimum above the automatic maximum (4 x average = 131072): needs a content longer than that
     for kind in ("zeros", "rand"):
         content = gen(kind, 150000 if not thorough else 300000, ctx.seed)
